@@ -584,6 +584,9 @@ pub enum Api {
     /// parse the bytes into a `serde_json::Value` tree first, then decode from
     /// the tree (`Value`'s own Deserializer: owned keys, de-duplicated maps)
     ViaValue,
+    /// the same through `&Value` (serde_json implements Deserializer for the reference too:
+    /// a different type, borrowed keys)
+    ViaValueRef,
 }
 
 #[derive(Clone, Debug, Serialize, Deserialize, PartialEq, Default)]
@@ -798,6 +801,19 @@ fn read_as<T: for<'de> Deserialize<'de>>(host: Host, bytes: &[u8], api: Api, pla
             };
             ReadOutcome { result: r, calls: 0, interrupts: 0, shorts: 0, hard_fired: false, eof_fired: false, log: 0 }
         }
+        Api::ViaValueRef => {
+            let r = match serde_json::from_slice::<serde_json::Value>(bytes) {
+                Err(e) => Err(e.to_string()),
+                Ok(v) => {
+                    if host == Host::Stream {
+                        T::deserialize(&v).map(|t| vec![t]).map_err(|e| e.to_string())
+                    } else {
+                        host_from::<T, _>(host, &v).map_err(|e| e.to_string())
+                    }
+                }
+            };
+            ReadOutcome { result: r, calls: 0, interrupts: 0, shorts: 0, hard_fired: false, eof_fired: false, log: 0 }
+        }
         Api::FromStr => {
             let r = match std::str::from_utf8(bytes) {
                 Ok(s) => finish::<T, _>(host, serde_json::Deserializer::from_str(s)),
@@ -848,6 +864,7 @@ pub fn execute_read(c: &JsonReadCase) -> LegReport {
         Api::FromSlice => "json_api_from_slice",
         Api::FromStr => "json_api_from_str",
         Api::ViaValue => "json_api_via_value",
+        Api::ViaValueRef => "json_api_via_value_ref",
     });
     rep.probes.hit(host_probe(c.host));
 
@@ -1115,8 +1132,8 @@ pub fn generate_read(r: &mut Rng, hi: u64, lo: u64, other: (u64, u64)) -> JsonRe
             format!("\"{k}\"")
         }
     };
-    let unknown = *r.pick(crate::deleg::UNKNOWN_NAMES);
-    let unknown_json = serde_json::to_string(unknown).unwrap();
+    let unknown = crate::vocab::unknown_name(r);
+    let unknown_json = serde_json::to_string(&unknown).unwrap();
     let (base, shape): (String, &'static str) = match r.below(24) {
         0..=6 => (format!("{{{}{}:{}{},{}:{}{}}}", ws(r), key(r, "hi"), ws(r), nh, key(r, "lo"), nl, ws(r)), "object_hi_lo"),
         7..=10 => (format!("{{{}:{},{}{}:{}{}}}", key(r, "lo"), nl, ws(r), key(r, "hi"), nh, ws(r)), "object_lo_hi"),
@@ -1155,10 +1172,11 @@ pub fn generate_read(r: &mut Rng, hi: u64, lo: u64, other: (u64, u64)) -> JsonRe
         }
     };
     let base_kind = format!("{shape}/{wkind}/{}", host.name());
-    let api = match r.below(5) {
+    let api = match r.below(6) {
         0 => Api::FromSlice,
         1 => Api::FromStr,
         2 => Api::ViaValue,
+        3 => Api::ViaValueRef,
         _ => Api::FromReader,
     };
     let mut c = JsonReadCase { base, base_kind, host, faults: vec![], api, plan: ReaderPlan::default() };
